@@ -5,6 +5,7 @@
 From Coq Require Import List ZArith Bool Permutation.
 From GZ Require Import Lib.RollingWindow Lib.RollingWindowSpec Lib.RollingWindowProofs.
 From GZ Require Import C16.Model C16.ProofsMap C16.ProofsSeq C16.ProofsCache C16.ProofsCacheLru.
+From GZ Require Import C16.ModelW C16.ProofsW.
 Import ListNotations.
 Open Scope Z_scope.
 
@@ -186,3 +187,70 @@ Example ex_cache :
   c_evictions (c_new 2) ex_c_ops = [[]; []; []; [2]; [1]; []] /\
   clru (c_final (c_new 2) ex_c_ops) = [3; 2].
 Proof. vm_compute. repeat split. Qed.
+
+(* ------------------------------------------------------------------ *)
+(* Cache composed with C12's timing wheel (C16/ModelW.v): expiry is the wheel's own
+   firing, not an oracle event.  n = wheel slots, i = wheel interval, mv = whether a
+   rewrite refreshes the timer with MoveTimer (as the code does) or SetTimer. *)
+
+(* An entry written with expiry d >= one interval and not rewritten / deleted / evicted
+   afterwards is present, with that value, after every operation sequence containing
+   fewer than floor(d / interval) ticks, and absent from the floor(d / interval)-th tick
+   on - whatever happened before (in particular whether the Set was a rewrite of a live
+   entry with another expiry), wherever the wheel stands, for every wheel size, limit
+   and interleaving of operations on other keys. *)
+Theorem cache_entry_expires_at_due_tick : forall limit n i mv pre k v d a,
+  1 <= n -> 1 <= i -> i <= d ->
+  let s1 := cw_final (cw_new limit n i mv) (pre ++ [XSet k v d]) in
+  forallb (fun o => negb (xwrites k o)) a = true ->
+  cw_never_evicts s1 k a ->
+  alookup k (cdata (cwc (cw_final s1 a))) = if xticks a <? d / i then Some v else None.
+Proof. exact cache_entry_expires_at_due_tick_proof. Qed.
+Print Assumptions cache_entry_expires_at_due_tick.
+
+(* ... and it is the wheel's firing at that very tick that removes it *)
+Theorem cache_expiry_fires_at_due_tick : forall limit n i mv pre k v d a,
+  1 <= n -> 1 <= i -> i <= d ->
+  let s1 := cw_final (cw_new limit n i mv) (pre ++ [XSet k v d]) in
+  forallb (fun o => negb (xwrites k o)) a = true ->
+  cw_never_evicts s1 k a ->
+  xticks a + 1 = d / i ->
+  In k (snd (cw_step (cw_final s1 a) XTick)).
+Proof. exact cache_expiry_event_at_due_tick_proof. Qed.
+Print Assumptions cache_expiry_fires_at_due_tick.
+
+(* rewriting a live entry restarts its life: the earlier expiry d0 and the ticks already
+   consumed play no role *)
+Theorem cache_rewrite_resets_expiry : forall limit n i mv pre k v0 d0 mid v d a,
+  1 <= n -> 1 <= i -> i <= d ->
+  let s0 := cw_final (cw_new limit n i mv) (pre ++ XSet k v0 d0 :: mid) in
+  amem k (cdata (cwc s0)) = true ->
+  let s1 := cw_final s0 [XSet k v d] in
+  forallb (fun o => negb (xwrites k o)) a = true ->
+  cw_never_evicts s1 k a ->
+  alookup k (cdata (cwc (cw_final s1 a))) = if xticks a <? d / i then Some v else None.
+Proof. exact cache_rewrite_resets_expiry_proof. Qed.
+Print Assumptions cache_rewrite_resets_expiry.
+
+(* the composed model is the event-based cache model of the theorems above, run on the
+   same history with an Expire k event exactly where the wheel fired k: same answers,
+   same final cache state *)
+Theorem cachew_refines_event_cache : forall ops s,
+  cw_run_noticks s ops = c_run_visible (cwc s) (cw_trace s ops) /\
+  cwc (cw_final s ops) = c_final (cwc s) (cw_trace s ops).
+Proof. exact cachew_refines_event_cache_proof. Qed.
+Print Assumptions cachew_refines_event_cache.
+
+(* non-vacuity: limit 2, 300 slots of 1000; key 1 is live (set with 1500, one tick gone)
+   and rewritten with 3500; operations on key 2 and Gets in between *)
+Definition ex_w_pre : list xop := [XSet 1 10 1500; XSet 2 5 2500; XTick].
+Definition ex_w_a : list xop := [XGet 1; XTick; XSet 2 20 3500; XTick; XGet 1].
+Example ex_cachew_hyps :
+  let s1 := cw_final (cw_new 2 300 1000 true) (ex_w_pre ++ [XSet 1 11 3500]) in
+  forallb (fun o => negb (xwrites 1 o)) ex_w_a = true /\ cw_never_evicts s1 1 ex_w_a /\
+  forallb (fun o => negb (xwrites 1 o)) (ex_w_a ++ [XTick]) = true /\ cw_never_evicts s1 1 (ex_w_a ++ [XTick]).
+Proof. vm_compute. repeat split; tauto. Qed.
+Example ex_cachew_run :
+  cw_run (cw_new 2 300 1000 true) (ex_w_pre ++ [XSet 1 11 3500] ++ ex_w_a ++ [XTick; XGet 1; XGet 2]) =
+    [OUnit; OUnit; OUnit; OUnit; OOpt (Some 11); OUnit; OUnit; OUnit; OOpt (Some 11); OUnit; OOpt None; OOpt (Some 20)].
+Proof. vm_compute. reflexivity. Qed.
